@@ -130,6 +130,29 @@ def locate(toks, path):
                 if name_idx < end and toks[name_idx].text == want[1]:
                     cands.append((start, kw, end))
         last = si == len(segs) - 1
+        if len(cands) > 1:
+            # several definitions under different #[cfg]s: keep those live in the production configuration (R2)
+            live = []
+            for (start, kw, end) in cands:
+                ok = True
+                i = start
+                while i < kw:
+                    if toks[i].text == '#' and toks[i + 1].text == '[':
+                        rb = match_close(toks, i + 1)
+                        inner = toks[i + 2:rb]
+                        if inner and inner[0].text == 'cfg' and len(inner) > 1 and inner[1].text == '(':
+                            try:
+                                if not eval_cfg(inner[2:-1], CFG_DEFAULT):
+                                    ok = False
+                            except Maintenance:
+                                pass
+                        i = rb + 1
+                    else:
+                        i += 1
+                if ok:
+                    live.append((start, kw, end))
+            if live:
+                cands = live
         if not cands:
             raise Maintenance('anchor lost: `%s` (segment `%s`) not found' % (path, seg))
         if last:
@@ -633,10 +656,17 @@ def instantiate(repl_text, caps, unit_line):
     return out
 
 
-def rewrite(toks, pat_text, repl_text, count, unit_line, log, what):
-    """Apply pattern -> replacement on toks. count: int (exact), '*' (>=1), '?' (0 or more)."""
+def rewrite(toks, pat_text, repl_text, count, unit_line, log, what, nth=None):
+    """Apply pattern -> replacement on toks. count: int (exact), '*' (>=1), '?' (0 or more).
+    nth=K: rewrite only the K-th match (there must be at least K)."""
     pat = Pat(pat_text)
     ms = find_matches(pat, toks)
+    if nth is not None:
+        if len(ms) < nth:
+            raise Maintenance('%s: pattern `%s` matched %d time(s), need match #%d (unit line %d)' % (
+                what, ' '.join(pat_text.split()), len(ms), nth, unit_line))
+        ms = [ms[nth - 1]]
+        count = '1'
     if count == '*':
         ok = len(ms) >= 1
     elif count == '?':
